@@ -124,6 +124,13 @@ def classify(res, fns, unit_name='unit'):
             f['where'] = 'body'
         f['label'] = lab
         f['labels'] = labs or ([lab] if lab else [])
+        # located in ghost text the contract inserted (hint / invariant)?
+        prim = next(((a, b) for (a, b, p_, _) in f['spans'] if p_), f['spans'][0][:2] if f['spans'] else None)
+        gs = cand.get('ghost_spans', [])
+        f['ghost'] = bool(prim) and any(g[0] <= prim[0] < g[1] for g in gs)
+        if not f['ghost'] and 'invariant' in f['message']:
+            # the primary span of an invariant failure is the loop exit / continue; the invariant itself is ghost text
+            f['ghost'] = any(g[0] <= a < g[1] for (a, b, p_, _) in f['spans'] for g in gs)
     return out
 
 
